@@ -51,6 +51,41 @@ def make_files(tier):
     return files
 
 
+def make_crafted_files(tier):
+    """files whose first block was assembled with push_serialized from bytes that disagree with the declared object count - for EVERY
+    codec (the payload is compressed like any other): more objects than declared, fewer, an object cut short, stray bytes after the
+    last object, an object that does not decode (union branch 5 of 2).  The second block is intact."""
+    G = container.item_schema()
+    v1, v2, v3 = container.item_value(4, "ab"), container.item_value(-9, "cde", 7), container.item_value(1, "last")
+    e1, e2 = pyavro.encode(G, 1, v1), pyavro.encode(G, 1, v2)
+    bad = pyavro.enc_long(3) + pyavro.enc_long(1) + [0x41] + pyavro.enc_long(5)            # a = 3, s = "A", union branch 5
+    crafts = [("two objects declared as one", e1 + e2, 1, ["good", "good"], [v1, v2]),
+              ("one object declared as two", e1, 2, ["good"], [v1]),
+              ("one object declared as three", e1, 3, ["good"], [v1]),
+              ("second object cut short", e1 + e2[:len(e2) - 1], 2, ["good", "short"], [v1, v2]),      # (a cut object keeps its number)
+              ("first object cut short", e1[:2], 1, ["short"], [v1]),
+              ("stray byte after the last object", e1 + e2 + [0x00], 2, ["good", "good", "junk"], [v1, v2]),
+              ("an object that does not decode", e1 + bad + e2, 3, ["good", "bad", "good"], [v1]),
+              ("nothing declared as one object", [], 1, [], [])]
+    cmds, info = [], []
+    for cd in container.CODECS:
+        for what, payload, n, items, good in crafts:
+            ops = [{"op": "push", "bytes": payload, "n": n}, {"op": "finish"}, {"op": "serialize", "pres": container.item_pres(G, v3)}, {"op": "into_inner"}]
+            cmds.append(container.writer_cmd(G, cd, 10 ** 6, ops, cid=len(cmds)))
+            info.append((cd, what, n, items, good))
+    obs, walks = container.run_writer_sessions(cmds)
+    files = []
+    for c, o, w, (cd, what, n, items, good) in zip(cmds, obs, walks, info):
+        if o.get("res") != "ok" or w["stop"] != len(o["sink"]) or len(w["blocks"]) != 2 or w["blocks"][0]["count"] != n:
+            if not items and len(w.get("blocks", [])) == 1:
+                continue                 # (an empty push may legitimately not open a block)
+            raise common.ToolError(f"could not produce the crafted file '{what}' for {cd}: {json.dumps(w)[:300]}")
+        shape = {"ev": "file", "blocks": [{"n": n, "items": items, "sync": "ok"}, {"n": 1, "items": ["good"], "sync": "ok"}], "cutb": 0, "cutat": AT_NONE}
+        files.append({"codec": cd, "bytes": o["sink"], "hlen": o["build"]["sink_len"], "blocks": w["blocks"], "values": good + [v3],
+                      "what": what, "shape": shape})
+    return files
+
+
 AT_HDR, AT_SYNC, AT_CLEAN, AT_NONE, AT_PAYLOAD = 0, 1000, -1, -2, -3
 
 
@@ -169,6 +204,14 @@ def run(tier, seed):
                 d = reencode_block_header(f, bi, dc, ds)
                 for rd in readers[:3]:
                     add(f, d, "named", f"block {bi} {what}", rd, shape=header_shape(f, bi, dc, ds))
+            # hostile block headers: counts and sizes no block can have (negative, 2^62, i64::MIN/MAX, beyond the allocation cap) and
+            # a count of zero over a non-empty payload: reported as errors, without panic, abort, endless loop or huge allocation
+            hostile = [(c, None) for c in (0, -1, -(2 ** 63), 2 ** 63 - 1, 2 ** 62, 2 ** 31, 2 ** 32, 10 ** 6) if c != b["count"]] + \
+                      [(None, z) for z in (-1, -(2 ** 63), 2 ** 63 - 1, 2 ** 62, 2 ** 31 - 1, 2 ** 32, 600 * 2 ** 20, 10 ** 6)]
+            for hk, (hc, hz) in enumerate(hostile if tier != "quick" else hostile[(bi % 2)::2]):
+                d = reencode_block_header(f, bi, 0 if hc is None else hc - b["count"], 0 if hz is None else hz - b["size"])
+                for rd in (readers[:3] if tier != "quick" else [readers[hk % 3]]):
+                    add(f, d, "named", f"block {bi} declares " + (f"{hc} objects" if hz is None else f"{hz} bytes"), rd)
             if f["codec"] == "snappy":
                 d = list(data)
                 d[sync_at - 1] ^= 0x10      # last byte of the CRC trailer
@@ -187,6 +230,13 @@ def run(tier, seed):
                 if d[off] == data[off]:
                     continue
                 add(f, d, "arbitrary", f"byte {off} {kind}{m:#x}", readers[(off + mk) % 4])
+        # several bytes at once (random offsets and values; seeded)
+        for k in range(40 if tier == "quick" else 400):
+            d = list(data)
+            for _ in range(rng.randint(2, 5)):
+                d[rng.randrange(f["hlen"], n)] = rng.choice((0, 1, 2, 0x7F, 0x80, 0xFF, rng.randrange(256)))
+            if d != list(data):
+                add(f, d, "arbitrary", f"random multi-byte corruption #{k}", readers[k % 4])
         # I/O error at every refill
         for sched in ([1], [5], [64]):
             nref = (n + sched[0] - 1) // sched[0] + 1
@@ -195,6 +245,11 @@ def run(tier, seed):
                 # other kinds of I/O error; Interrupted and WouldBlock may be retried by the reading layers and never surface
                 kind = ("interrupted", "connection_reset", "would_block", "unexpected_eof")[i % 4]
                 add(f, data, "io", f"I/O error ({kind}) at refill {i} (chunks of {sched[0]})", {"kind": "chunks", "sched": sched}, {"fail_at_refill": i, "fail_kind": kind})
+    # blocks whose contents disagree with their declared count, assembled with push_serialized, every codec
+    crafted = make_crafted_files(tier)
+    for f in crafted:
+        for rd in readers[:3]:
+            add(f, f["bytes"], "named", f"crafted block: {f['what']}", rd, shape=f["shape"])
     obs = common.run_harness(cmds, per_cmd_timeout=30)
     events, owner = [], []
     counts = {}
@@ -251,7 +306,17 @@ def run(tier, seed):
             continue
         ievents.append(shp)
         iowner.append(i)
-        for r_, src in zip(C05.read_event(f["values"], o["results"], damage)["results"], o["results"]):
+        rev = C05.read_event(f["values"], o["results"], damage)["results"]
+        if "shape" in f:
+            # crafted blocks: an object the reader could not deliver keeps its number (the machine counts it) - number each value by
+            # its first occurrence after the previous one
+            last = 0
+            for r_, src in zip(rev, o["results"]):
+                if r_["r"] == "some":
+                    nxt = [j for j in range(last + 1, len(f["values"]) + 1) if f["values"][j - 1] == src.get("value")]
+                    r_["item"] = nxt[0] if nxt else 0
+                    last = r_["item"] or last
+        for r_, src in zip(rev, o["results"]):
             ievents.append({"ev": "call", "r": r_["r"], "item": r_["item"], "st": src.get("st", "unknown"), "left": src.get("left", -1), "latch": src.get("latch", -1)})
             iowner.append(i)
     per = max(400, (len(ievents) + common.NCPU - 1) // common.NCPU)
@@ -302,7 +367,7 @@ def run(tier, seed):
         "states": max(1, len(events)), "transitions": max(1, len(events)), "traces_validated_against_impl": nch,
         "evaluations": len(cmds), "distinct_nontrivial": len(cmds),
         "rule": "for one 3-block file per codec (6 codecs): truncation at EVERY byte offset; every byte of every block's sync marker changed; declared "
-                "count +-1 and size +-1 of every block; snappy CRC changed; header sync marker changed; single-byte corruption at every offset (4 masks); an I/O "
+                "count +-1 and size +-1 of every block; hostile declared counts and sizes (0, negative, 2^31, 2^32, 2^62, i64::MIN/MAX, beyond the allocation cap); blocks assembled with push_serialized whose contents disagree with the declared count (more, fewer, cut short, stray bytes, undecodable object; every codec); snappy CRC changed; header sync marker changed; single-byte corruption at every offset (4 masks); random multi-byte corruptions of the blocks; an I/O "
                 "error injected at every refill index for 3 chunk sizes; slice and chunked readers. Each read is validated by TLC against ContainerReaderAbs "
                 "(Trace_Reader: prefix rule, must-report rule, once-then-EOF latch with reader state from hooks, sticky end of stream).",
         "by_damage": counts, "rule_sanity_cases": n_sanity,
